@@ -1,11 +1,12 @@
 """C11 - space groups are found by any of their identifiers and by their operations."""
+import os
 import re
 from fractions import Fraction
 
 from translate import sgtables, lookupspec
 from vlib import core, sglive
 
-TARGETS = ["Props/C11.vo", "Props/C11_SymText.vo"]
+TARGETS = ["Props/C11.vo", "Props/C11_SymText.vo", "Props/C11_SymTextRegex.vo"]
 
 
 def variants(n):
@@ -80,8 +81,14 @@ def run(ctx):
                         "operation lists: theorems hold for every list; entries rendered by %6.3f"]
     with core.BuildLock():
         ok = ctx.regen("sgtables", sgtables.generate) and ctx.regen("lookupspec", lookupspec.generate)
+        from translate import c17_numeric
+        if not ctx.regen("c17_numeric", c17_numeric.generate):
+            # same fail-closed stand-in as C17 uses: a pattern that accepts anything, never a stale translation
+            core.write_if_changed(os.path.join(core.COQ, "Gen", "C17_SymopRegex.v"),
+                                  "From DS Require Import Model.C17_Regex.\nDefinition gen_rx_translation : rx := RStar RAny.\n"
+                                  "Definition gen_rx_term : rx := RStar RAny.\n")
         if ok:
-            ctx.coq(TARGETS, theorems_in={"Props/C11", "Props/C11_SymText"}, timeout=1500)
+            ctx.coq(TARGETS, theorems_in={"Props/C11", "Props/C11_SymText", "Props/C11_SymTextRegex"}, timeout=1500)
 
         # ---------- correspondence: model vs implementation -----------------
         rng = ctx.rng
